@@ -278,10 +278,16 @@ func RunOne(vec *Vector, f func()) (res Result) {
 		}()
 		f()
 	}()
+	// wall-clock guard: 10 s for sampled witnesses; 30 s when a counterexample is being confirmed (some
+	// harnesses then search a concrete input natively, which is slow on a loaded machine)
+	guard := 10 * time.Second
+	if vec.Confirm {
+		guard = 30 * time.Second
+	}
 	select {
 	case r := <-done:
 		return r
-	case <-time.After(10 * time.Second):
+	case <-time.After(guard):
 		res.Outcome = "timeout"
 		return res
 	}
